@@ -1,5 +1,179 @@
-(* C08 - property theorems only *)
-From VT Require Import Check.C08Check.
-Theorem C08_placeholder : forall k : ccase, c08_eval k = c08_eval k.
-Proof. reflexivity. Qed.
-Print Assumptions C08_placeholder.
+(* C08 - property theorems only; proofs live in Client/ClientLemmas.v, Client/ClientProofs.v,
+   Client/CheckProofs.v *)
+From VT Require Import Client.ClientLemmas Client.CliCheck Client.ClientProofs Client.Witness.
+From VT Require Import Check.C08Check Client.CheckProofs.
+Open Scope N_scope.
+
+(* bad_namespace: emit / send / call on a namespace that is not in `namespaces` raise
+   BadNamespaceError, send nothing and change nothing - in every state *)
+Theorem C08_bad_namespace : forall c s o,
+  (match o with
+   | CEmit _ _ pns _ | CSend _ pns _ | CCall _ _ pns _ _ => ahas str_eqb (namespaces s) (ns_or_default pns) = false
+   | _ => False
+   end) ->
+  step c s o = (s, [Raised BadNamespaceError]).
+Proof. exact bad_namespace. Qed.
+Print Assumptions C08_bad_namespace.
+
+(* connect_sends: on a clean client, connect() whose transport comes up sends exactly one CONNECT
+   per requested namespace, in order, carrying the auth value (or {}), and nothing else, and
+   starts waiting in the state `opened` (connected = False, namespaces = {}) *)
+Theorem C08_connect_sends : forall c s nss auth l,
+  connected s = false -> eio_state s = EDisconnected ->
+  let req := match nss with None => derived_namespaces c | Some x => x end in
+  pieces_all CONNECT (auth_value auth) req = Ok l ->
+  connect_begin c nss auth false s = (opened s req auth, map Sent l, Ok tt).
+Proof. exact connect_sends. Qed.
+Print Assumptions C08_connect_sends.
+
+(* reset: whenever _handle_eio_disconnect completes, callbacks = {}, _binary_packet = None,
+   sid = None and connected = False, in every state; `namespaces` is emptied iff `connected` was set *)
+Theorem C08_reset : forall c reason s,
+  rs (handle_eio_disconnect c reason) s = Ok tt ->
+  st (handle_eio_disconnect c reason) s = cleared s.
+Proof. exact reset. Qed.
+Print Assumptions C08_reset.
+Theorem C08_reset_fields : forall c reason s,
+  rs (handle_eio_disconnect c reason) s = Ok tt ->
+  let s' := st (handle_eio_disconnect c reason) s in
+  callbacks s' = [] /\ binpkt s' = None /\ sid s' = PNone /\ connected s' = false /\
+  (connected s = true -> namespaces s' = []).
+Proof. exact reset_fields. Qed.
+Print Assumptions C08_reset_fields.
+
+(* disconnect_once: from a connected state the three ways the whole connection can end notify
+   every connected namespace exactly as `notify` (the checker's expectation: one call of the
+   responsible disconnect handler with the reason naming the cause) says, in `namespaces` order,
+   and leave the client fully disconnected *)
+Theorem C08_disconnect_once_client : forall c s calls frames,
+  connected s = true -> eio_state s = EConnected ->
+  pieces_all DISCONNECT PNone (map fst (namespaces s)) = Ok frames ->
+  expect_disconnects c r_client_disconnect (map fst (namespaces s)) = Some calls ->
+  finals_silent c (map fst (namespaces s)) ->
+  api_disconnect c s = (down s, map Sent frames ++ to_calls calls, Ok tt).
+Proof. exact disconnect_once_client. Qed.
+Print Assumptions C08_disconnect_once_client.
+Theorem C08_disconnect_once_loss : forall c s calls,
+  connected s = true -> eio_state s = EConnected ->
+  expect_disconnects c r_transport_error (map fst (namespaces s)) = Some calls ->
+  finals_silent c (map fst (namespaces s)) ->
+  eio_loss c s = (down s, to_calls calls, Ok tt).
+Proof. exact disconnect_once_loss. Qed.
+Print Assumptions C08_disconnect_once_loss.
+Theorem C08_disconnect_once_server_close : forall c s calls,
+  connected s = true -> eio_state s = EConnected ->
+  expect_disconnects c r_server_disconnect (map fst (namespaces s)) = Some calls ->
+  finals_silent c (map fst (namespaces s)) ->
+  eio_server_close c s = (down s, to_calls calls, Ok tt).
+Proof. exact disconnect_once_server_close. Qed.
+Print Assumptions C08_disconnect_once_server_close.
+Theorem C08_down_is_fully_disconnected : forall s, fully_disconnected (down s).
+Proof. exact down_fully. Qed.
+Print Assumptions C08_down_is_fully_disconnected.
+(* "exactly one": a responsible handler that accepts the reason and returns is expected (and, by the
+   theorems above, invoked) exactly once for its namespace *)
+Theorem C08_disconnect_exactly_one : forall c reason ns h a,
+  responsible c ev_disconnect ns [reason] = Some (h, a) ->
+  arity_fits c h (List.length a) = true -> (exists v, returns c h = Some v) ->
+  notify c ev_disconnect ns [reason] = Some [(h, a)].
+Proof. exact expect_one. Qed.
+Print Assumptions C08_disconnect_exactly_one.
+(* the checker's expectation function is what the model does, for every event name *)
+Theorem C08_notify_sound : forall c ev ns args l,
+  notify c (PStr ev) ns args = Some l ->
+  trig_eff c (PStr ev) ns args = to_calls l /\ exists v, trig_res c (PStr ev) ns args = Ok v.
+Proof. exact notify_sound. Qed.
+Print Assumptions C08_notify_sound.
+
+(* wait_all_or_error is FALSE of the faithful model (7.1-d) ... *)
+Theorem C08_wait_all_or_error_refuted :
+  exists c s nss auth window,
+    connected s = false /\ eio_state s = EDisconnected /\
+    rs (api_connect c nss auth true false window) s = Err ConnectionError /\
+    let s' := st (api_connect c nss auth true false window) s in
+    ~ fully_disconnected s' /\ namespaces s' = [(slash, PStr (s2l "S0"))] /\
+    api_emit (s2l "x") PNone (Some slash) None s' = (s', [], Ok None).
+Proof. exact wait_all_or_error_refuted. Qed.
+Print Assumptions C08_wait_all_or_error_refuted.
+(* ... and holds except for `namespaces`: normal return iff `namespaces` has exactly the requested
+   keys after the window; otherwise ConnectionError with the transport closed and callbacks /
+   binary packet / sid reset, fully disconnected iff nothing had been accepted *)
+Theorem C08_wait_all_or_error_except : forall c s nss auth window l,
+  connected s = false -> eio_state s = EDisconnected ->
+  let req := match nss with None => derived_namespaces c | Some x => x end in
+  pieces_all CONNECT (auth_value auth) req = Ok l ->
+  let s1 := st (forM window (fun m => deliver c (fst m) (snd m))) (opened s req auth) in
+  W req s1 /\
+  (set_eqb (map fst (namespaces s1)) req = true ->
+   rs (api_connect c nss auth true false window) s = Ok tt /\
+   st (api_connect c nss auth true false window) s = with_connected s1 true) /\
+  (set_eqb (map fst (namespaces s1)) req = false ->
+   forall d, pieces_all DISCONNECT PNone (map fst (namespaces s1)) = Ok d ->
+   rs (api_connect c nss auth true false window) s = Err ConnectionError /\
+   st (api_connect c nss auth true false window) s = failed_state s1 /\
+   (fully_disconnected (failed_state s1) <-> namespaces s1 = [])).
+Proof. exact wait_all_or_error_except. Qed.
+Print Assumptions C08_wait_all_or_error_except.
+
+(* mirror, packet by packet *)
+Theorem C08_mirror_connect : forall c pns data s,
+  let ns := ns_or_default pns in
+  st (handle_connect c pns data) s =
+  if ahas str_eqb (namespaces s) ns then s
+  else match connect_sid data (sid s) with
+       | Ok v => with_namespaces s (aset str_eqb (namespaces s) ns v)
+       | Err _ => s
+       end.
+Proof. exact mirror_connect. Qed.
+Print Assumptions C08_mirror_connect.
+Theorem C08_mirror_disconnect_except : forall c pns s calls,
+  connected s = true -> eio_state s = EConnected ->
+  let ns := ns_or_default pns in
+  notify c ev_disconnect ns [r_server_disconnect] = Some calls -> notify c ev_final ns [] = Some [] ->
+  handle_disconnect c pns s =
+  match adel str_eqb (namespaces s) ns with
+  | [] => (down s, to_calls calls, Ok tt)
+  | d => (with_namespaces s d, to_calls calls, Ok tt)
+  end.
+Proof. exact mirror_disconnect. Qed.
+Print Assumptions C08_mirror_disconnect_except.
+Theorem C08_mirror_disconnect_ignored : forall c pns s,
+  connected s = false -> handle_disconnect c pns s = (s, [], Ok tt).
+Proof. exact mirror_disconnect_ignored. Qed.
+Print Assumptions C08_mirror_disconnect_ignored.
+Theorem C08_mirror_error : forall c pns data s calls,
+  let ns := ns_or_default pns in
+  notify c ev_connect_error ns (match data with PNone => [] | PTuple l | PList l => l | x => [x] end) = Some calls ->
+  handle_error c pns data s =
+  (if str_eqb ns slash then with_connected (with_namespaces s []) false
+   else with_namespaces s (adel str_eqb (namespaces s) ns), to_calls calls, Ok tt).
+Proof. exact mirror_error. Qed.
+Print Assumptions C08_mirror_error.
+(* the mirror clause is FALSE of the faithful model for CONNECT immediately followed by DISCONNECT
+   inside the wait window (7.1-i) *)
+Theorem C08_mirror_refuted :
+  exists c nss auth window,
+    classify_window window = [(0%Z, slash); (1%Z, slash)] /\
+    let r := step c cli_init (CConnect nss auth false true false window) in
+    snd r = [Sent (PStr (s2l "0{}")); Call 1 []; Ret PNone] /\
+    connected (fst r) = true /\ namespaces (fst r) = [(slash, PStr (s2l "S0"))] /\
+    snd (step c (fst r) (CEmit (s2l "x") PNone (Some slash) None)) = [Sent (PStr (s2l "2[""x""]"))].
+Proof. exact mirror_refuted. Qed.
+Print Assumptions C08_mirror_refuted.
+
+(* the checkers on the model's own runs *)
+Theorem C08_corr_accepts_model : forall c ops, corr_ok (model_case c ops) = true.
+Proof. exact corr_model. Qed.
+Print Assumptions C08_corr_accepts_model.
+Theorem C08_checker_flags_partial_acceptance :
+  c08_where (model_case cfg_w witness_partial) = Some (0%nat, B_MIRROR, sv_init).
+Proof. exact c08_flags_partial_acceptance. Qed.
+Print Assumptions C08_checker_flags_partial_acceptance.
+Theorem C08_checker_flags_window_disconnect :
+  exists m, c08_where (model_case cfg_w witness_window_disconnect) = Some (0%nat, m, sv_init) /\
+            Nat.land m B_WAIT = B_WAIT /\ Nat.land m B_MIRROR = B_MIRROR.
+Proof. exact c08_flags_window_disconnect. Qed.
+Print Assumptions C08_checker_flags_window_disconnect.
+Theorem C08_checker_accepts_clean : c08_code (model_case cfg_w witness_clean) = 0%nat.
+Proof. exact c08_accepts_clean. Qed.
+Print Assumptions C08_checker_accepts_clean.
